@@ -112,7 +112,8 @@ def handle (op : String) (j : Json) : Option Json :=
                                 | none => Json.str "ui_error"
                                 | some l => Json.mkObj [("ok", optStr l)]),
                    ("run_env", envJson (runEnv w r)),
-                   ("two_phase", two)]
+                   ("two_phase", two),
+                   ("pre", optStr (nextText w.cwd r (c + 1)))]
       match launch w r c with
       | .ok l => pure (Json.mkObj (("status", Json.str "ok") :: base ++ launchJson l))
       | .uiError => pure (Json.mkObj (("status", Json.str "ui_error") :: base))
